@@ -13,7 +13,7 @@ import math
 import os
 
 import vcheck
-from vcheck import Case, gz
+from vcheck import Case, gz, gzlist, gnlist
 import tgen
 import c04_util as U
 
@@ -81,6 +81,58 @@ def _gen_adv_key(rng, shape, gen_slice, grow):
             k = rng.choice(cand)
             es[k][1][rng.randrange(len(es[k][1]))] = shape[k]
     return es
+
+
+def _gen_value_shape(rng, shape, es):
+    """shape of a value array for T[es] = V: numpy's zipped result shape, the outer-product (kept) shape the property demands,
+    broadcastable variants of the former (a dimension 1, leading dimensions dropped / added), rarely a mismatch"""
+    try:
+        s2, _ = U.resolve_set(tuple(shape), ["region", es], ["scalar", 1])
+        outer = list(U.kept_shape_of(tuple(shape), ["region", es]))
+    except U.Inadmissible:
+        return None
+    ref = np_adv_ref(s2, es)
+    if ref is None:
+        return None
+    zipped = list(ref[0])
+    r = rng.random()
+    if r < 0.4:
+        v = zipped
+    elif r < 0.6:
+        v = outer
+    elif r < 0.75:
+        v = list(zipped)
+        v[rng.randrange(len(v))] = 1
+    elif r < 0.85:
+        v = zipped[rng.randint(1, len(zipped)):] if len(zipped) > 1 else [1]
+        v = v or [1]
+    elif r < 0.93:
+        v = [1] + zipped
+    else:
+        v = list(zipped)
+        k = rng.randrange(len(v))
+        v[k] = v[k] + 1
+    return v if v and math.prod(v) <= 48 else None
+
+
+def np_bcast_ref(vshape, vals, oshape):
+    """numpy's broadcast of a value array (F-order vals) to oshape: F-order list, or None when numpy raises"""
+    vs = list(vshape)
+    while len(vs) > len(oshape):
+        if vs[0] != 1:
+            return None
+        vs = vs[1:]
+    vs = [1] * (len(oshape) - len(vs)) + vs
+    if any(dv not in (1, do) for dv, do in zip(vs, oshape)):
+        return None
+    out = []
+    for j in tgen.all_subs(oshape):
+        k, mul = 0, 1
+        for dv, x in zip(vs, j):
+            k += (0 if dv == 1 else x) * mul
+            mul *= dv
+        out.append(vals[k])
+    return out
 
 
 def _gen_mat_elem(rng, d, gen_slice, allow_list=True, oor=False, neg=True, rep=True):
@@ -194,12 +246,21 @@ def gen_cases_extra(rng, tier, gen_slice, val):
     for _ in range(700 if big else 90):
         shape = tgen.rand_shape(rng, maxn=3, maxcells=48, maxdim=4, minn=2)
         data = tgen.rand_dense(rng, shape, rng.choice([0.5, 1.0]))
-        if rng.random() < 0.6:
+        r = rng.random()
+        if r < 0.45:
             es = _gen_adv_key(rng, shape, gen_slice, False)
             mode = ["get"]
-        else:
+        elif r < 0.7:
             es = _gen_adv_key(rng, shape, gen_slice, rng.random() < 0.25)
             mode = ["set", val(rng, 0.2)]
+        else:
+            # wave 4: a VALUE ARRAY through a key with index lists: numpy broadcasts it against the zipped selection
+            es = _gen_adv_key(rng, shape, gen_slice, rng.random() < 0.25)
+            vshape = _gen_value_shape(rng, shape, es)
+            if vshape is None:
+                mode = ["set", val(rng, 0.2)]
+            else:
+                mode = ["setv", vshape, [val(rng, 0.2) for _ in range(math.prod(vshape))]]
         cases.append(Case("np_adv", {"shape": list(shape), "data": data, "key": es, "mode": mode}, U.key_is_a16(["region", es])))
     # ---- tenmat / sptenmat histories
     for kind, cnt in (("tenmat_rw", 500 if big else 60), ("sptenmat_set", 600 if big else 70)):
@@ -226,11 +287,16 @@ def gen_cases_extra(rng, tier, gen_slice, val):
                         continue
                 bad = rng.random() < 0.08
                 which = rng.randrange(2)
-                lists_ok = kind == "sptenmat_set"
+                # wave 4: tenmat keys with TWO index lists (numpy zips them: the A-16 class on tenmat) in some histories
+                lists_ok = kind == "sptenmat_set" or (q % 5 == 3)
                 # C04-N14 (sptenmat + repeated index) is repaired in /repo (8f8b86e): an ordinary input class
                 rep = True
                 e0 = _gen_mat_elem(rng, r, gen_slice, True, bad and which == 0, neg=True, rep=rep)
                 e1 = _gen_mat_elem(rng, c, gen_slice, lists_ok or e0[0] != "l", bad and which == 1, neg=True, rep=rep)
+                if kind == "tenmat_rw" and q % 5 == 3 and not bad and rng.random() < 0.5:
+                    L = rng.choice([1, 2, 2, 3])
+                    e0 = ["l", [rng.randrange(r) for _ in range(L)]]
+                    e1 = ["l", [rng.randrange(c) for _ in range(rng.choice([1, L]))]]
                 key = ["region", [e0, e1]]
                 if kind == "tenmat_rw" and rng.random() < 0.45:
                     ops.append(["get", key])
@@ -364,6 +430,15 @@ def run_extra(c):
                     o = tgen.obs_dense(np, r)
                     return {"out": ["dense", o["shape"], o["data"]]}
                 return {"out": ["vals", [tgen.exact(x) for x in np.asarray(r).ravel(order="F")]]}
+            if a["mode"][0] == "setv":
+                V = np.array([float(v) for v in a["mode"][2]]).reshape(tuple(a["mode"][1]), order="F")
+                snap = V.copy()
+                exc = None
+                try:
+                    T[pk] = V
+                except Exception as ex:      # noqa: BLE001
+                    exc = type(ex).__name__ + ": " + str(ex)[:160]
+                return {"state": tgen.obs_dense(np, T), "raised": exc, "rhs_changed": not np.array_equal(snap, V)}
             T[pk] = float(a["mode"][1])
             return {"state": tgen.obs_dense(np, T)}
         except Exception as ex:      # noqa: BLE001
@@ -443,6 +518,11 @@ def check_extra(c, o):
         st = o["state"]
         if not _ints(st["data"]):
             return "false"
+        if a["mode"][0] == "setv":
+            if o.get("rhs_changed"):
+                return "false"
+            return (f"check_np_adv_setv {T} {_g_es(a['key'])} {gnlist(a['mode'][1])} {gzlist(a['mode'][2])} "
+                    f"{tgen.gdense(st['shape'], st['data'])} {'true' if o.get('raised') else 'false'}")
         return f"check_np_adv_set {T} {_g_es(a['key'])} {gz(a['mode'][1])} {tgen.gdense(st['shape'], st['data'])}"
     st0, steps = o["start"], o["steps"]
     if len(steps) != len(a["ops"]) or any("broken" in s["state"] for s in steps):
@@ -456,7 +536,12 @@ def check_extra(c, o):
                 return "false"
         obs = "[" + "; ".join(f"({tgen.gdense(s['state']['shape'], s['state']['data'])}, {U.g_xout(None if s['exc'] else s['out'])})"
                               for s in steps) + "]"
-        return f"check_tenmat {tgen.gdense(st0['shape'], st0['data'])} {U.g_ops(a['ops'])} {obs}"
+        g0 = tgen.gdense(st0['shape'], st0['data'])
+        e = f"check_tenmat {g0} {U.g_ops(a['ops'])} {obs}"
+        if any(U.key_is_a16(op[1]) for op in a["ops"]):
+            # A-16 class on a tenmat: the fixed-shape specification (outer product) OR numpy's advanced indexing, consistently
+            e = f"({e}) || (check_tenmat_np {g0} {U.g_ops(a['ops'])} {obs})"
+        return e
     for s in [{"state": st0}] + steps:
         st = s["state"]
         if not _ints(st["vals"]) or st["nvals"] != len(st["subs"]):
@@ -466,7 +551,11 @@ def check_extra(c, o):
             return "false"          # negative stored subscripts: ill-formed (cannot be written as nat literals)
     obs = "[" + "; ".join(f"({tgen.gsparse(s['state']['shape'], s['state']['subs'], s['state']['vals'])}, "
                           f"{'false' if s['exc'] else 'true'})" for s in steps) + "]"
-    return f"check_sptenmat {tgen.gsparse(st0['shape'], st0['subs'], st0['vals'])} {U.g_ops(a['ops'])} {obs}"
+    g0 = tgen.gsparse(st0['shape'], st0['subs'], st0['vals'])
+    # (1) the executable specification (fixed-shape sparse step of the refinement theorems): denotation + well-formedness;
+    # (2) wave 4: the TRANSLITERATION of sptenmat.__setitem__ (Model/C04SpMatImpl.v), stepped from the observed raw state:
+    #     exactly the raw state pyttb shows next, stored order included
+    return f"(check_sptenmat {g0} {U.g_ops(a['ops'])} {obs}) && (check_sptenmat_impl {g0} {U.g_ops(a['ops'])} {obs})"
 
 
 # ------------------------------------------------------------------------------------------------
@@ -474,6 +563,48 @@ def check_extra(c, o):
 # ------------------------------------------------------------------------------------------------
 def _dense_dict(shape, data):
     return {tuple(p): v for p, v in zip(tgen.all_subs(shape), data)}
+
+
+def _oracle_setv(a, o, shape, f, es):
+    """T[es] = value array: numpy's zipped assignment with broadcasting (raises when not broadcastable, after growth), or the
+    outer-product assignment of an exactly shaped value (every other shape rejected)"""
+    vshape, vals = list(a["mode"][1]), list(a["mode"][2])
+    if o.get("rhs_changed"):
+        return "the assignment changed its right-hand-side array"
+    s2, asg = U.resolve_set(shape, ["region", es], ["scalar", 1])
+    g = {p + (0,) * (len(s2) - len(shape)): x for p, x in f.items()}
+    st = o["state"]
+    got = _dense_dict(st["shape"], st["data"])
+    raised = bool(o.get("raised"))
+
+    def same(w, wshape):
+        return tuple(st["shape"]) == tuple(wshape) and all(got.get(p, 0) == w.get(p, 0) for p in itertools.chain(got, w))
+    accepted = []
+    # numpy
+    ref = np_adv_ref(s2, es)
+    if ref:
+        bv = np_bcast_ref(vshape, vals, list(ref[0]))
+        if bv is None:
+            accepted.append(("numpy: not broadcastable, raises after growth", raised and same(g, s2)))
+        else:
+            z = dict(g)
+            for p, x in zip(ref[1], bv):
+                z[p] = x
+            accepted.append(("numpy: zipped assignment", (not raised) and same(z, s2)))
+    # property: outer product, exactly shaped value
+    outer_shape = list(U.kept_shape_of(shape, ["region", es]))
+    if vshape == outer_shape and len(vals) == len(asg):
+        w = dict(g)
+        for (p, _), x in zip(asg, vals):
+            w[p] = x
+        accepted.append(("outer product", (not raised) and same(w, s2)))
+    else:
+        accepted.append(("outer product: value of another shape is rejected",
+                         raised and (same(g, s2) or same(dict(f), shape))))
+    if any(ok for _, ok in accepted):
+        return None
+    return (f"T[{es}] = array of shape {vshape} {vals}: state {st} raised={o.get('raised')} is none of "
+            f"{[n for n, _ in accepted]}")
 
 
 def oracle_extra(c, o):
@@ -496,6 +627,8 @@ def oracle_extra(c, o):
                     return None
             return (f"T[{es}] returned shape {got[0]} values {got[1]}: neither the outer product {want_outer} nor numpy's "
                     f"zipped selection {want_np}")
+        if a["mode"][0] == "setv":
+            return _oracle_setv(a, o, shape, f, es)
         v = a["mode"][1]
         s2, asg = U.resolve_set(shape, ["region", es], ["scalar", v])
         g = {p + (0,) * (len(s2) - len(shape)): x for p, x in f.items()}
